@@ -344,8 +344,11 @@ META = {
                   '(C01_static_split_halves_at_optimum), the forest facts in consumable form (C01_static_split_block_facts), and the SIGN lemma (C01_static_split_sign: the side of '
                   'left(c) / right(c) has its optimum at -/+ lm(c)/(2U) from the old position, by summing the stationarity residuals over the side; corollaries '
                   'C01_static_split_left_half_moves_left = the premise dl >= 0 of _merge_left_entry, C01_static_split_right_half_optimum_right = rho >= 0 of the mergeRight entry). '
-                  'Not proved: the assembly through static_split / refine_pass (carrying forest, T2 and the vector lengths through mergeLeft / mergeRight, stationarity from '
-                  'blk_ok instead of VpscStationary.fresh, totality), so passes_ok stays a visible hypothesis. The candidate invariants are evaluated '
+                  'The FIRST HALF of Blocks::split is assembled from these (C01_static_split_first_half, Vpsc/StaticSplitFirst.v: Block::split on a forest state whose block is '
+                  'stationary with lm(c) <= 0, r put back, mergeLeft(l): the two-mode invariant holds at exit and the in-constraints of the final block are satisfied, premises = '
+                  'the invariants of refine\'s second loop only). Not proved: the second half (updateWeightedPosition gives blk_ok from blk_st, mergeRight entry in both modes, '
+                  'kill / cleanup), carrying forest, stationarity (from blk_ok instead of VpscStationary.fresh), T2 and the vector lengths from one split to the next, totality - '
+                  'so passes_ok stays a visible hypothesis. The candidate invariants are evaluated '
                   'as booleans on every split of every DAG solve() instance (Vpsc/StaticRefB.v, driver line r, checked in vlib/c01lib.eval_corr_static): I2 / J / root-min (both heaps) / mode A / '
                   'all-sat-after-split hold on every visited state; the naive ones (mergeLeft(l) leaves everything satisfied, nothing moves right in mergeLeft / left in '
                   'mergeRight) are false on reachable states and are only recorded. '
